@@ -49,6 +49,11 @@ def main():
     needs_file = os.path.join(VERIF, 'seeded', 'needs.json')
     if os.path.exists(needs_file):
         meta['needs'] = json.load(open(needs_file)).get('%s-%s' % (prop, label), '')
+    an_file = os.path.join(VERIF, 'seeded', 'analysis.json')
+    if os.path.exists(an_file):
+        an = json.load(open(an_file)).get('%s-%s' % (prop, label))
+        if an:
+            meta['analysis'] = an
     notes = os.path.join(wt, 'seed', 'NOTES2.md' if label in ('C', 'D') else 'NOTES.md')
 
     # ---- 1. confirm in the scratch worktree
@@ -72,6 +77,14 @@ def main():
     else:
         suite_ok = None
         meta['suite_with_change'] = 'not re-run by seedcheck (see agent NOTES.md)'
+        # keep the suite result of an earlier full confirmation of the same patch
+        old_meta = os.path.join(out, 'meta.json')
+        if os.path.exists(old_meta) and os.path.exists(os.path.join(out, 'patch.diff')) and open(os.path.join(out, 'patch.diff')).read() == open(patch).read():
+            om = json.load(open(old_meta))
+            if isinstance(om.get('suite_with_change'), dict):
+                meta['suite_with_change'] = om['suite_with_change']
+                suite_ok = om.get('confirmed', {}).get('suite_passes')
+                meta['ran'] = [r for r in om.get('ran', []) if 'ctest' in r]
     # demo with and without the change
     first = open(demo).read(4000)
     san = '-fsanitize=undefined -fno-sanitize-recover=all' if 'fsanitize' in first else ''
